@@ -12,7 +12,14 @@ def hx(b):
 
 
 def unhx(s):
-    return b'' if s == '-' else binascii.unhexlify(s)
+    if s == '-':
+        return b''
+    try:
+        return binascii.unhexlify(s)
+    except (binascii.Error, ValueError):
+        # a worker that dies in the middle of a line leaves a torn record
+        s = ''.join(c for c in s if c in '0123456789abcdefABCDEF')
+        return binascii.unhexlify(s[:len(s) & ~1])
 
 
 def fhex(x):
@@ -270,6 +277,27 @@ class Worker:
                 continue
             t = line.decode('latin-1').split(' ')
             k = t[0]
+            try:
+                self._parse_line(res, k, t)
+            except (ValueError, IndexError, KeyError):
+                res.torn = getattr(res, 'torn', 0) + 1      # torn/garbled record from a dying worker
+                continue
+            if k == 'done' and len(t) > 2:
+                if t[2] == 'FATAL':
+                    # worker exits after a fatal verdict
+                    try:
+                        self.p.wait(timeout=5)
+                    except Exception:
+                        self.p.kill(); self.p.wait()
+                    if res.fatal and res.fatal[0] == 'SIGNAL':
+                        res.died = (self.p.returncode, self._stderr_tail())
+                    self.stop()
+                break
+        res.wall = time.time() - t0
+        return res
+
+    def _parse_line(self, res, k, t):
+        if True:
             if k == 'r':
                 f = {}
                 for kv in t[3:]:
@@ -306,18 +334,6 @@ class Worker:
                     a, b = kv.split('='); res.stats[a] = int(b)
             elif k == 'done':
                 res.status = t[2]
-                if t[2] == 'FATAL':
-                    # worker exits after a fatal verdict
-                    try:
-                        self.p.wait(timeout=5)
-                    except Exception:
-                        self.p.kill(); self.p.wait()
-                    if res.fatal and res.fatal[0] == 'SIGNAL':
-                        res.died = (self.p.returncode, self._stderr_tail())
-                    self.stop()
-                break
-        res.wall = time.time() - t0
-        return res
 
 
 class WorkerSet:
